@@ -98,6 +98,14 @@ C10_FittingTransferStaged(undisturbed, maxfile, plan, store1) ==
   undisturbed => \A j \in DOMAIN plan :
      (plan[j].kind \in {"exact", "split"} /\ plan[j].sz <= maxfile) => GoodSlot(store1, plan[j].path, plan[j].d)
 
+\* I/O faults while staging (short write + error or plain error at an
+\* intermediate flush, at the final flush inside Commit, at close, at the rename
+\* into the store): a file whose transfer suffered one is never reported as
+\* staged - no slot bearing its planned digest appears. hit: the set of
+\* [path, d] the fault struck.
+C10_WriteFaultsSurface(hit, store0, store1) ==
+  \A f \in hit : ~HasSlot(store0, f.path, f.d) => ~HasSlot(store1, f.path, f.d)
+
 (***************************************************************************)
 (* Part 2. Call-protocol state of one endpoint and its update per call      *)
 (*   m = [ro, max, maxfile, sSt, sTr, count, cache, dirty, sdirty, init]    *)
@@ -168,12 +176,13 @@ C41_OmittedAvailable(disk0, store0, req, ret, store1) ==
 
 \* a request is kept only if it still needs data: not already staged, and not
 \* (every file the last scan saw with that digest is still intact and small
-\* enough to be copied into the store)
-C41_RequestedNeeded(m, disk0, store0, req, ret) ==
+\* enough to be copied into the store, and no I/O fault struck the copy -
+\* struck: the request paths hit by one)
+C41_RequestedNeeded(m, struck, disk0, store0, req, ret) ==
   \A i \in DOMAIN req : (\E j \in DOMAIN ret : ret[j] = req[i].path) =>
      /\ ~GoodSlot(store0, req[i].path, req[i].d)
      /\ LET cand == {q \in FilePaths(m.cache) : At(m.cache, q).d = req[i].d}
-        IN ~(cand # {} /\ Fits(m, req[i]) /\ \A q \in cand : IsFileWith(disk0, q, req[i].d))
+        IN ~(cand # {} /\ Fits(m, req[i]) /\ req[i].path \notin struck /\ \A q \in cand : IsFileWith(disk0, q, req[i].d))
 
 \* the controller's own check of Stage's answer (safety.go filteredPathsAreSubset)
 \* accepts exactly the in-order subsequences
@@ -204,6 +213,9 @@ C41_ReadOnlyRefuses(m, err, disk0, disk1, store0, store1) ==
 (*   "none"            the code as it is                                    *)
 (*   "name_by_expected" Commit names the slot by the digest that was asked  *)
 (*   "no_reverify"     stageFromRoot trusts the reverse lookup              *)
+(*   "offered_hash_and_merge" the hashed writer hashes the bytes OFFERED     *)
+(*                     instead of those accepted AND Commit lets a later   *)
+(*                     nil close error overwrite the flush error            *)
 (*   "hash_before_limit" Storage.Write feeds the hasher before the size     *)
 (*                     check: a rejected write is hashed but not written    *)
 (***************************************************************************)
@@ -235,26 +247,59 @@ StoreWhole(w, n, lim) ==
   IF n <= lim THEN [nd |-> w, cd |-> w, outcome |-> "fits"]
   ELSE [cd |-> "empty", nd |-> IF WhatIf = "hash_before_limit" THEN w ELSE "empty", outcome |-> "limit_last"]
 
+\* The sink as the code layers it: Storage.Write -> bufio.Writer (BufCap units) ->
+\* hashed writer (hashes what the file accepted) -> temporary file; Commit = final
+\* Flush, Close, digest, Rename onto the slot name - and succeeds only if every step
+\* did. A fault strikes one step: "flush1" (the intermediate flush when the buffer
+\* fills: only files larger than the buffer have one), "final" (the flush inside
+\* Commit), "close", "rename"; how = "short" (part of the data reaches the disk, then
+\* the error) or "error" (nothing of that step does).
+BufCap == 2
+NoFault == [step |-> "none", how |-> "none"]
+AllFaults == {NoFault} \cup [step : {"flush1", "final", "close", "rename"}, how : {"short", "error"}]
+Fires(fault, n) == CASE fault.step = "none" -> FALSE
+                     [] fault.step = "flush1" -> n > BufCap
+                     [] fault.step = "final" -> n > 0
+                     [] OTHER -> TRUE
+\* [committed, nd, cd]: whether a slot appears, named by what the hasher saw, holding what is on disk
+SinkRun(w, n, fault) ==
+  LET pre == IF n > BufCap THEN BufCap ELSE 0          \* units on disk before the final flush
+      broken == WhatIf = "offered_hash_and_merge"
+  IN
+  IF ~Fires(fault, n) THEN [committed |-> TRUE, nd |-> w, cd |-> w]
+  ELSE IF fault.step = "flush1" THEN
+       \* Write returns the error: Patch fails, the sink is closed; Commit's Flush returns the
+       \* sticky error. Broken: the error is lost, the file is committed under what was OFFERED so far.
+       LET disk == IF fault.how = "short" THEN BufCap - 1 ELSE 0 IN
+       [committed |-> broken, nd |-> Prefix(w, n, BufCap), cd |-> Prefix(w, n, disk)]
+  ELSE IF fault.step = "final" THEN
+       \* every operation was accepted into the buffer; only Commit can notice
+       LET disk == IF fault.how = "short" /\ n - 1 > pre THEN n - 1 ELSE pre IN
+       [committed |-> broken, nd |-> w, cd |-> Prefix(w, n, disk)]
+  ELSE [committed |-> FALSE, nd |-> w, cd |-> w]         \* close / rename fail: Commit returns the error
+
 \* Cache.GenerateReverseLookupMap keeps ONE path per digest (map order): any of them
 Candidates(m, d) == {q \in FilePaths(m.cache) : At(m.cache, q).d = d}
 
 \* endpoint.Stage's filter loop: Contains -> stageFromRoot -> (copy, Commit, Contains)
 \* returns the set of possible [store, ret]
-RECURSIVE StageWalk(_, _, _, _, _)
-StageWalk(m, root, req, store, ret) ==
+RECURSIVE StageWalk(_, _, _, _, _, _)
+StageWalk(m, root, req, store, ret, fault) ==
   IF req = <<>> THEN {[store |-> store, ret |-> ret]}
   ELSE
     LET r == Head(req)  rest == Tail(req) IN
-    IF HasSlot(store, r.path, r.d) THEN StageWalk(m, root, rest, store, ret)
-    ELSE IF Candidates(m, r.d) = {} THEN StageWalk(m, root, rest, store, Append(ret, r.path))
+    IF HasSlot(store, r.path, r.d) THEN StageWalk(m, root, rest, store, ret, fault)
+    ELSE IF Candidates(m, r.d) = {} THEN StageWalk(m, root, rest, store, Append(ret, r.path), fault)
     ELSE UNION {
            LET src == At(root, q) IN
-           IF src.k # "file" THEN StageWalk(m, root, rest, store, Append(ret, r.path))   \* opener.OpenFile fails
+           IF src.k # "file" THEN StageWalk(m, root, rest, store, Append(ret, r.path), fault)   \* opener.OpenFile fails
            ELSE LET w == StoreWhole(src.d, UnitsOf(src.d), m.maxfile)
-                    st2 == PutSlot(store, r.path, w.nd, w.cd, r.d) IN                     \* io.Copy + sink.Close
+                    k == IF w.outcome = "fits" THEN SinkRun(src.d, UnitsOf(src.d), fault)
+                         ELSE [committed |-> fault.step \notin {"close", "rename"}, nd |-> w.nd, cd |-> w.cd]   \* nothing was buffered
+                    st2 == IF k.committed THEN PutSlot(store, r.path, k.nd, k.cd, r.d) ELSE store IN   \* io.Copy + sink.Close
                 IF WhatIf = "no_reverify" \/ HasSlot(st2, r.path, r.d)                   \* final stager.Contains
-                THEN StageWalk(m, root, rest, st2, ret)
-                ELSE StageWalk(m, root, rest, st2, Append(ret, r.path))
+                THEN StageWalk(m, root, rest, st2, ret, fault)
+                ELSE StageWalk(m, root, rest, st2, Append(ret, r.path), fault)
          : q \in Candidates(m, r.d)}
 
 \* one file through the rsync receiver: what ends up committed for it
@@ -268,14 +313,17 @@ Written(kind, d) ==
     [] OTHER -> "none"
 \* size of what the transfer tries to write: exact and corrupt carry the planned size
 TriedUnits(kind, d) == IF kind \in {"exact", "corrupt"} THEN UnitsOf(d) ELSE UnitsOf(Written(kind, d))
-RECURSIVE RecvWalk(_, _, _, _)
-RecvWalk(pending, kinds, store, lim) ==
+RECURSIVE RecvWalk(_, _, _, _, _)
+RecvWalk(pending, kinds, store, lim, fault) ==
   IF pending = <<>> THEN store
   ELSE LET p == Head(pending)  k == Head(kinds) IN
        IF k = "abort0" THEN store
        ELSE LET w == StoreUnits(Written(k, p.d), TriedUnits(k, p.d), lim)
-                st2 == PutSlot(store, p.path, w.nd, w.cd, p.d) IN
-            IF k = "abort" THEN st2 ELSE RecvWalk(Tail(pending), Tail(kinds), st2, lim)
+                \* I/O faults are modelled for complete transfers that pass the size check
+                f == IF k = "exact" /\ w.outcome = "fits" THEN SinkRun(p.d, UnitsOf(p.d), fault)
+                     ELSE [committed |-> fault.step \notin {"close", "rename"}, nd |-> w.nd, cd |-> w.cd]
+                st2 == IF f.committed THEN PutSlot(store, p.path, f.nd, f.cd, p.d) ELSE store IN
+            IF k = "abort" THEN st2 ELSE RecvWalk(Tail(pending), Tail(kinds), st2, lim, fault)
 
 \* core.Transition restricted to file changes directly below the root
 \* acc = [root, store, results, nprob, missing, init]
